@@ -20,6 +20,12 @@ type Options struct {
 	NumFuncs  int
 	NumCases  int
 	Shadowing bool // re-declare outer names in inner scopes (if/loop bodies, closures, range binders)
+	// Ticks: every generated function takes a trailing counter tk *uint64, and sub-expressions are wrapped at
+	// random in tickNN(tk, e), the identity on e that also counts its evaluations. The case returns the count
+	// next to the results, so an operand that the translation evaluates twice, or not at all, or under the
+	// wrong condition, is observable whatever its value. The wrappers return their argument, so the order in
+	// which Go and GooseLang evaluate operands (left-to-right vs right-to-left) does not matter.
+	Ticks bool
 	// quarantined atoms (known findings)
 	KnownForInitShadow  bool // for-init variable that hides a live outer variable
 	KnownBareBlock      bool // bare block declaring a name that hides a live outer variable
@@ -31,7 +37,7 @@ type Options struct {
 }
 
 func DefaultOptions() Options {
-	return Options{MaxStmts: 7, MaxDepth: 3, NumFuncs: 6, NumCases: 5, Shadowing: true}
+	return Options{MaxStmts: 7, MaxDepth: 3, NumFuncs: 6, NumCases: 5, Shadowing: true, Ticks: true}
 }
 
 type Ty struct {
@@ -315,8 +321,20 @@ func (g *G) useVar(v *variable) string {
 	return v.name
 }
 
-// expr generates a side-effect-free expression of type t.
+// expr generates an expression of type t (side-effect free except for evaluation counting, see Options.Ticks).
 func (g *G) expr(sc *scope, t *Ty, depth int) string {
+	e := g.expr0(sc, t, depth)
+	if g.opt.Ticks && g.curFunc != nil && g.rng.Chance(7) {
+		fn := map[string]string{"u64": "tick64", "u32": "tick32", "u8": "tick8", "bool": "tickB", "string": "tickS"}[t.K]
+		if fn != "" && e != "" {
+			g.feat("tick-" + t.K)
+			return fmt.Sprintf("%s(tk, %s)", fn, e)
+		}
+	}
+	return e
+}
+
+func (g *G) expr0(sc *scope, t *Ty, depth int) string {
 	switch {
 	case t.isInt():
 		return g.intExpr(sc, t, depth)
@@ -601,6 +619,9 @@ func (g *G) callExpr(sc *scope, t *Ty, depth int) string {
 		args = append(args, g.expr(sc, p, depth+1))
 	}
 	g.feat("call")
+	if g.opt.Ticks {
+		args = append(args, "tk")
+	}
 	return fmt.Sprintf("%s(%s)", f.name, strings.Join(args, ", "))
 }
 
@@ -967,6 +988,9 @@ func (g *G) methodCallStmt(sc *scope) {
 		}
 		n := g.fresh(sc, false)
 		g.feat("method-call-" + f.recv.K)
+		if g.opt.Ticks {
+			args = append(args, "tk")
+		}
 		g.line("%s := %s.%s(%s)", n, g.useVar(r), f.name, strings.Join(args, ", "))
 		sc.vars = append(sc.vars, &variable{name: n, t: f.results[0], knownLen: -1})
 		return
@@ -1313,6 +1337,9 @@ func (g *G) multiAssign(sc *scope) {
 		nv = append(nv, &variable{name: n, t: rt, knownLen: -1})
 	}
 	g.feat(fmt.Sprintf("destructure-%d", len(f.results)))
+	if g.opt.Ticks {
+		args = append(args, "tk")
+	}
 	g.line("%s := %s(%s)", strings.Join(names, ", "), f.name, strings.Join(args, ", "))
 	sc.vars = append(sc.vars, nv...)
 }
@@ -1456,6 +1483,15 @@ func RandomPackage(rng *core.Rng, name string, opt Options) *Package {
 	g.line("\treturn machine.UInt64Get(b)")
 	g.line("}")
 	g.line("")
+	if opt.Ticks {
+		for _, tt := range [][2]string{{"tick64", "uint64"}, {"tick32", "uint32"}, {"tick8", "byte"}, {"tickB", "bool"}, {"tickS", "string"}} {
+			g.line("func %s(tk *uint64, v %s) %s {", tt[0], tt[1], tt[1])
+			g.line("\t*tk = *tk + 1")
+			g.line("\treturn v")
+			g.line("}")
+			g.line("")
+		}
+	}
 	// structs
 	ns := 1 + rng.Intn(2)
 	for i := 0; i < ns; i++ {
@@ -1574,9 +1610,21 @@ func RandomPackage(rng *core.Rng, name string, opt Options) *Package {
 			if len(rts) > 1 {
 				rt = "(" + rt + ")"
 			}
-			g.line("func %s() %s {", cn, rt)
-			g.line("\treturn %s(%s)", f.name, strings.Join(args, ", "))
-			g.line("}")
+			if opt.Ticks {
+				var rs []string
+				for k := range f.results {
+					rs = append(rs, fmt.Sprintf("r%d", k))
+				}
+				g.line("func %s() (%s, uint64) {", cn, strings.Join(rts, ", "))
+				g.line("\ttk := new(uint64)")
+				g.line("\t%s := %s(%s)", strings.Join(rs, ", "), f.name, strings.Join(append(args, "tk"), ", "))
+				g.line("\treturn %s, *tk", strings.Join(rs, ", "))
+				g.line("}")
+			} else {
+				g.line("func %s() %s {", cn, rt)
+				g.line("\treturn %s(%s)", f.name, strings.Join(args, ", "))
+				g.line("}")
+			}
 			g.line("")
 			cases = append(cases, cn)
 		}
@@ -1592,6 +1640,9 @@ func (g *G) genFunc(f *funcSig) {
 		n := fmt.Sprintf("p%d", i)
 		ps = append(ps, n+" "+p.Go())
 		body.vars = append(body.vars, &variable{name: n, t: p, used: true, knownLen: -1})
+	}
+	if g.opt.Ticks {
+		ps = append(ps, "tk *uint64")
 	}
 	var rts []string
 	for _, r := range f.results {
